@@ -88,10 +88,11 @@ class Renderer:
         return text, exp
 
 
-def load_both(me, loader, text, delim, scratch, comment=None):
+def load_both(me, loader, text, delim, scratch, comment=None, extra=None):
     """load from a StringIO and from a path; returns list of (source, outcome)"""
     fn = getattr(me.io, "load_" + loader)
     kw = {"delimiter": ","} if delim == "comma" else {}
+    kw.update(extra or {})
     if comment is not None:
         kw["comment"] = comment
     outs = []
@@ -241,6 +242,22 @@ def run(tier, seed):
                     all(same_value(a, np.array(b)) for a, b in zip(val[1], vals))
                 if not ok:
                     rep.violation("io.load_ragged_time_series", "round-trip-differs", {"text": text, "source": src, "outcome": [cls, repr(val)[:300]]})
+            # the documented value type: integer columns (dtype=int) come back exactly, also beyond 2**53, and a row whose
+            # value is not an integer is malformed (ValueError naming the row)
+            ivals = [[rng.choice([rng.randint(0, 127), 2 ** 53 + rng.randint(1, 99), -rng.randint(1, 10 ** 6)]) for _ in range(rng.randint(0, 3))] for _ in range(k)]
+            text = "".join(sep.join([repr(t)] + [str(v) for v in vs]) + "\n" for t, vs in zip(times, ivals))
+            for src, (cls, val, nw) in load_both(me, "ragged_time_series", text, "space", scratch, extra={"dtype": int}):
+                n += 1
+                ok = cls == "ok" and same_value(val[0], np.array(times)) and len(val[1]) == k and \
+                    all(a.dtype.kind == "i" and a.tolist() == b for a, b in zip(val[1], ivals))
+                if not ok:
+                    rep.violation("io.load_ragged_time_series", "integer-values/round-trip-differs", {"text": text, "source": src, "dtype": "int", "outcome": [cls, repr(val)[:300]]})
+            text2 = text + "1.5 60 60.5\n"
+            for src, (cls, val, nw) in load_both(me, "ragged_time_series", text2, "space", scratch, extra={"dtype": int}):
+                n += 1
+                if cls != "ValueError" or (":%d" % k) not in str(val):
+                    rep.violation("io.load_ragged_time_series", "integer-values/malformed-row/" + ("returned-a-value" if cls == "ok" else "raised-" + cls if cls != "ValueError" else "error-does-not-name-the-row"),
+                                  {"text": text2, "source": src, "dtype": "int", "outcome": [cls, repr(val)[:300]]})
             # patterns
             pats = [[[(float(rng.randint(0, 40)) * 0.25, float(rng.randint(40, 90))) for _ in range(rng.randint(1, 3))]
                      for _ in range(rng.randint(1, 3))] for _ in range(rng.randint(1, 3))]
